@@ -21,6 +21,8 @@ pub struct Case {
     pub reactivations: Vec<u32>, // share ids of the re-activations
     pub tls_identity: usize,
     pub tls12_only: bool,
+    /// the transport accepts at most this many bytes per write call (short writes are legal for any io::Write)
+    pub write_chunk: usize,
     pub class: &'static str,
     pub seed: u64,
     pub idx: u64,
@@ -32,7 +34,7 @@ fn describe(c: &Case) -> Value {
            "profile": {"selected": c.profile.selected_protocol, "user_id": c.profile.user_id, "share_id": c.profile.share_id, "version": c.profile.version,
                         "core_optional": c.profile.core_optional, "extra_blocks": c.profile.extra_blocks.len(), "block_order": c.profile.block_order,
                         "caps": c.profile.caps.iter().map(|(t, b)| json!([t, b.len()])).collect::<Vec<_>>(), "license": format!("{:?}", c.profile.license).chars().take(60).collect::<String>()},
-           "reactivations": c.reactivations, "tls_identity": c.tls_identity, "tls12_only": c.tls12_only})
+           "reactivations": c.reactivations, "tls_identity": c.tls_identity, "tls12_only": c.tls12_only, "write_chunk": if c.write_chunk == usize::MAX { 0 } else { c.write_chunk }})
 }
 
 pub fn make_case(class: u64, idx: u64, seed: u64) -> Case {
@@ -67,7 +69,7 @@ pub fn make_case(class: u64, idx: u64, seed: u64) -> Case {
         reactivations.push(if r.chance(1, 3) { profile.share_id } else { gen::share_id(&mut r) });
     }
     let ids = [0usize, 2, 3];
-    Case {
+    let mut case = Case {
         transport: if tls { "tls" } else { "plain" },
         cfg,
         profile,
@@ -75,6 +77,7 @@ pub fn make_case(class: u64, idx: u64, seed: u64) -> Case {
         reactivations,
         tls_identity: ids[r.below(3) as usize],
         tls12_only: r.chance(1, 3),
+        write_chunk: usize::MAX,
         class: match class {
             0 => "plain-random-profiles",
             1 => "tls-and-nla",
@@ -83,7 +86,15 @@ pub fn make_case(class: u64, idx: u64, seed: u64) -> Case {
         seed,
         idx,
         gen_class: class,
+    };
+    // drawn last so that the rest of the case does not depend on them
+    if r.chance(1, 4) {
+        case.write_chunk = *r.pick(&[1usize, 2, 7, 16, 64, 1000]);
     }
+    if tls && r.chance(1, 6) {
+        case.tls_identity = *r.pick(&crate::tls::SPECIAL_IDENTITIES);
+    }
+    case
 }
 
 pub struct Outcome {
@@ -105,6 +116,7 @@ pub fn drive(c: &Case) -> Result<Outcome, mon::PanicInfo> {
     d.with(|s| {
         s.tls_identity = c.tls_identity;
         s.tls12_only = c.tls12_only;
+        s.write_chunk = c.write_chunk;
         s.nla_cfg = nla;
     });
     let probe = d.clone();
